@@ -25,10 +25,16 @@ def render(spec, prologue="", epilogue="", union=None, actions=None, tags=None):
     if union is not None:
         out.append("%union {\n" + union + "\n}\n")
     tags = tags or {}
-    for t in spec["tokens"]:
-        num = spec.get("nums", {}).get(t)
-        tg = "<%s> " % tags[t] if t in tags else ""
-        out.append("%%token %s%s%s\n" % (tg, t, (" %d" % num) if num else ""))
+    if spec.get("token_groups"):
+        # several tokens on one %token line (they share the line's tag); a number belongs to the token before it
+        for grp in spec["token_groups"]:
+            tg = "<%s> " % tags[grp[0]] if grp[0] in tags else ""
+            out.append("%%token %s%s\n" % (tg, " ".join(t + ((" %d" % spec["nums"][t]) if spec.get("nums", {}).get(t) else "") for t in grp)))
+    else:
+        for t in spec["tokens"]:
+            num = spec.get("nums", {}).get(t)
+            tg = "<%s> " % tags[t] if t in tags else ""
+            out.append("%%token %s%s%s\n" % (tg, t, (" %d" % num) if num else ""))
     if spec.get("eof_token"):
         out.append("%token EOF -1\n")        # the documented alias of the end marker (examples/e.y); not a grammar symbol
     for t, num in spec.get("redecl", []):
@@ -125,10 +131,14 @@ def rand_grammar(rng, max_t=5, max_n=5, max_alt=3, max_len=4, p_prec=0.5, p_lit=
             line, pool = pool[:k], pool[k:]
             prec.append((rng.choice(["left", "right", "nonassoc", "precedence"]), line))
     # a rule-level %prec symbol must have a precedence declaration or yaccgo dereferences nil
+    # `%prec X` where X carries no precedence is legal: the rule then has NO precedence (its tokens' levels
+    # do not count); X must be a symbol of the grammar, so a literal is only used when it occurs in some rule
     declared = {s for _, ss in prec for s in ss}
+    used_syms = {x for r in rules for x in r["rhs"]}
     for r in rules:
         if r["prec"] is not None and r["prec"] not in declared:
-            r["prec"] = None
+            if rng.random() < 0.5 or (r["prec"].startswith("'") and r["prec"] not in used_syms):
+                r["prec"] = None
     # the alternatives of one nonterminal need not be adjacent in the file (`y : B ; x : y ; y : C y ;`)
     if len(rules) > 2 and rng.random() < p_split:
         for _ in range(rng.randint(1, 2)):
@@ -145,6 +155,31 @@ def rand_grammar(rng, max_t=5, max_n=5, max_alt=3, max_len=4, p_prec=0.5, p_lit=
                     r["lhs"] = new_nt
                 r["rhs"] = [new_nt if x == old_nt else x for x in r["rhs"]]
     return {"tokens": tokens, "lits": lits, "prec": prec, "nts": nts, "start": "N0", "rules": rules}
+
+
+def nullable_web(rng):
+    """heavily nullable, mutually recursive nonterminals used in several contexts: cycles of nullable
+    nonterminal transitions (cycles in the `reads` relation; such grammars are not LR(k), but the
+    lookahead sets are still defined) — the family on which result sets shared inside a component matter"""
+    nt, nn = rng.randint(3, 6), rng.randint(3, 6)
+    T = ["T%d" % i for i in range(nt)]
+    N = ["N%d" % i for i in range(nn)]
+    rules = []
+    for _ in range(rng.randint(2, 4)):
+        rhs = []
+        if rng.random() < 0.7:
+            rhs.append(rng.choice(T))
+        rhs.append(rng.choice(N))
+        if rng.random() < 0.8:
+            rhs.append(rng.choice(T))
+        rules.append({"lhs": "S", "rhs": rhs, "prec": None})
+    for n in N:
+        for a in range(rng.randint(1, 3)):
+            ln = rng.choice([0, 0, 1, 2, 2, 3])
+            rules.append({"lhs": n, "rhs": [rng.choice(N) if rng.random() < 0.75 else rng.choice(T) for _ in range(ln)], "prec": None})
+        if rng.random() < 0.6:
+            rules.append({"lhs": n, "rhs": [], "prec": None})
+    return {"tokens": T, "lits": [], "prec": [], "nts": ["S"] + N, "start": "S", "rules": rules}
 
 
 def expr_grammar(rng):
@@ -240,6 +275,11 @@ CORPUS = {
     "prefix_large_first": "%token X Y A B C D\n%start S\n%%\nS : Y Q | X P ;\nQ : P C | R D ;\nP : A ;\nR : A B ;\n%%\n",
     # the alternatives of a nonterminal are not adjacent in the file
     "split_alternatives": "%token A B C\n%start S\n%%\nS : X A ;\nY : B ;\nX : Y ;\nY : C Y ;\n%%\n",
+    # mutual right recursion (an includes-cycle of two transitions) re-entered from later contexts
+    "mutual_right_recursion": "%token A B X Y Z W K M\n%start S\n%%\nP : A Q | X ;\nQ : B P | Y ;\nS : P | Z Z P K | W W Q M ;\n%%\n",
+    # a cycle of nullable nonterminal transitions (cycle in `reads`): the members of the component share one
+    # Read set; their Follow sets must still be computed separately (finding F20)
+    "reads_cycle": "%token T0 T1 T2 T3 T4\n%start S\n%%\nS : T0 N2 T0 | T2 N1 | T3 N0 T1 ;\nN0 : N1 N1 |  ;\nN1 :  | N2 T4 N2 | N0 |  ;\nN2 : T3 N2 N2 | N2 N0 T2 |  ;\n%%\n",
     # NQLALR-separating family (Bermudez/Logothetis style)
     "nqlalr": "%token A B C D G\n%start S\n%%\nS : A X C | A Y D | B X D | B Y C | G X G ;\nX : Z ;\nY : Z ;\nZ : ;\n%%\n",
 }
